@@ -48,11 +48,12 @@ func (s *State) get(comp string) string {
 		}
 	}
 	sym := comp + "_in"
-	if s.tainted {
+	late := s.tainted && !(s.x.errflow && strings.HasPrefix(comp, "G_")) && !strings.HasPrefix(comp, "L_")
+	if late {
 		sym = comp + "_late"
 	}
 	s.x.declare(sym, srt)
-	if !s.tainted {
+	if !late {
 		s.x.symNa[sym] = s.x.entryNa
 	}
 	if !s.tainted {
@@ -169,6 +170,8 @@ type Exec struct {
 	topEnv     *Env
 	sweep      bool
 	pending    *pendingStore
+	errflow    bool
+	frameOnly  string
 	topRets    []retInfo
 	cmdTag     []int
 	symNa      map[string]string // heap symbol -> allocation bound when it was created
@@ -239,6 +242,9 @@ func (x *Exec) oblName(kind, anchor string) string {
 	if n := x.nameCount[base]; n > 1 {
 		base = fmt.Sprintf("%s#%d", base, n)
 	}
+	if x.errflow {
+		return x.fn.String() + "#errflow/" + base
+	}
 	return x.fn.String() + "#" + base
 }
 
@@ -251,6 +257,9 @@ func (x *Exec) oblige(kind, anchor, guard, goal, desc string, pos token.Pos) {
 		return
 	}
 	o := &Obligation{Name: x.oblName(kind, anchor), Kind: kind, Func: x.fn.String(), Idx: len(x.cmds), Guard: guard, Goal: goal, Desc: desc, Tainted: x.curTaint, Inlined: len(x.inlineStk) > 1, Block: x.curBlock}
+	if x.errflow {
+		o.Func += "#errflow"
+	}
 	if pos.IsValid() {
 		p := x.eng.prog.Fset.Position(pos)
 		o.Pos = fmt.Sprintf("%s:%d", p.Filename, p.Line)
@@ -282,7 +291,11 @@ func (x *Exec) obligeCases(kind, anchor string, cases []oblCase, desc string, po
 	for i := range keep {
 		keep[i].Idx = len(x.cmds)
 	}
-	o := &Obligation{Name: x.oblName(kind, anchor), Kind: kind, Func: x.fn.String(), Idx: len(x.cmds), Cases: keep, Desc: desc, Tainted: x.curTaint}
+	fname := x.fn.String()
+	if x.errflow {
+		fname += "#errflow"
+	}
+	o := &Obligation{Name: x.oblName(kind, anchor), Kind: kind, Func: fname, Idx: len(x.cmds), Cases: keep, Desc: desc, Tainted: x.curTaint}
 	if pos.IsValid() {
 		p := x.eng.prog.Fset.Position(pos)
 		o.Pos = fmt.Sprintf("%s:%d", p.Filename, p.Line)
@@ -511,6 +524,12 @@ func (x *Exec) load(fr *frame, addr sval, ptrT types.Type, st *State, reach stri
 		x.assume(reach, f)
 	}
 	x.markNamed(s, elemT)
+	if addr.loc != nil && addr.loc.Kind == "field" && len(addr.loc.Path) == 1 {
+		if g, ok := x.eng.onStoreFlag[addr.loc.Comp+"."+addr.loc.Path[0].SI.Fields[addr.loc.Path[0].Idx].Acc]; ok {
+			// the ghost flag mirrors the field exactly (every store updates it)
+			x.assume(reach, "(= (not (= "+s+" 0)) (select "+st.get("G_"+g)+" "+addr.loc.Obj+"))")
+		}
+	}
 	sv := sval{t: s}
 	if _, isFn := elemT.Underlying().(*types.Signature); isFn {
 		key := x.addrKey(addr)
@@ -557,6 +576,11 @@ func (x *Exec) store(fr *frame, addr sval, ptrT types.Type, v sval, st *State, r
 			}
 			upd(l.Comp, "(store "+cur+" "+l.Obj+" "+x.fieldSet(rec, l.Path, v.t)+")")
 			if len(l.Path) == 1 {
+				if g, ok := x.eng.onStoreFlag[l.Comp+"."+l.Path[0].SI.Fields[l.Path[0].Idx].Acc]; ok {
+					gc := "G_" + g
+					gcur := st.get(gc)
+					st.set(gc, x.define(gc, x.so.comps[gc], "(store "+gcur+" "+l.Obj+" (not (= "+v.t+" 0)))"))
+				}
 				if g, ok := x.eng.onStore[l.Comp+"."+l.Path[0].SI.Fields[l.Path[0].Idx].Acc]; ok {
 					gc := "G_" + g
 					gcur := st.get(gc)
@@ -814,6 +838,10 @@ func (x *Exec) execBody(fr *frame, st0 *State, reach0 string) ([]sval, *State, s
 		var lspec *LoopSpec
 		if isHead && ct != nil {
 			lspec = ct.Loops[ci.loopOrd[b]]
+			if lspec == nil && x.errflow && fr.top {
+				lspec = &LoopSpec{Invariants: []Clause{{Label: "nofault", Text: "old(fault) == fault", File: "(generic)"}}}
+				ct.Loops[ci.loopOrd[b]] = lspec
+			}
 		}
 		// phis
 		instrs := b.Instrs
@@ -850,16 +878,21 @@ func (x *Exec) execBody(fr *frame, st0 *State, reach0 string) ([]sval, *State, s
 			}
 			// 2. havoc
 			ws := x.eng.loopWriteSet(fn, ci.loopBody[b])
-			preLoop := st
+			if x.errflow {
+				ws = &WriteSet{Comps: map[string]bool{"G_parked": true}}
+			}
 			if fr.top && ct != nil && !ws.Top && x.topEnv != nil && !x.sweep {
 				// the function's frame (modifies clause) is an implicit loop invariant
 				x.loopFrame(ct, ws, st0, st, reach, true, fmt.Sprintf("loop%d", ci.loopOrd[b]), "inv-entry")
 			}
-			st = x.havocForWrites(st, ws, "loop")
+			if x.errflow {
+				st = x.havocHeapKeepGhosts(st, map[string]bool{"fault": true, "parked": true})
+			} else {
+				st = x.havocForWrites(st, ws, "loop")
+			}
 			if fr.top && ct != nil && !ws.Top && x.topEnv != nil && !x.sweep {
 				x.loopFrame(ct, ws, st0, st, reach, false, "", "")
 			}
-			_ = preLoop
 			for kk := 0; kk < k; kk++ {
 				phi := instrs[kk].(*ssa.Phi)
 				s := x.freshConst("phi_"+phi.Comment, x.so.sortOf(phi.Type()))
@@ -1056,6 +1089,9 @@ func (x *Exec) addEdge(fr *frame, ci *cfgInfo, ct *Contract, edges map[*ssa.Basi
 		env := x.loopEnv(fr, to, st, st0)
 		if fr.top && ct != nil && x.topEnv != nil && !x.sweep {
 			ws := x.eng.loopWriteSet(fr.fn, ci.loopBody[to])
+			if x.errflow {
+				ws = &WriteSet{Comps: map[string]bool{"G_parked": true}}
+			}
 			if !ws.Top {
 				x.loopFrame(ct, ws, st0, st, cond, true, fmt.Sprintf("loop%d", ci.loopOrd[to]), "inv-preserve")
 			}
@@ -1157,6 +1193,9 @@ func (x *Exec) loopFrame(ct *Contract, ws *WriteSet, st0, cur *State, reach stri
 		if _, ok := x.so.comps[c]; !ok {
 			continue
 		}
+		if x.errflow && c != "G_parked" {
+			continue
+		}
 		o, n := st0.get(c), cur.get(c)
 		if o == n {
 			continue
@@ -1218,16 +1257,65 @@ func (x *Exec) assumeStateInvs(st *State, guard string) {
 	}
 }
 
+// havocHeapKeepGhosts: every heap component gets a fresh symbol, ghost
+// components only if named in modGhosts (error-flow mode: data is abstracted).
+func (x *Exec) havocHeapKeepGhosts(st *State, modGhosts map[string]bool) *State {
+	n := st.clone()
+	for _, c := range x.so.sortedComps() {
+		if strings.HasPrefix(c, "L_") {
+			continue
+		}
+		if strings.HasPrefix(c, "G_") {
+			if modGhosts[strings.TrimPrefix(c, "G_")] {
+				st.get(c)
+				n.m[c] = x.freshConst(c+"_hv", x.so.comps[c])
+			}
+			continue
+		}
+		n.m[c] = x.freshConst(c+"_hv", x.so.comps[c])
+	}
+	for g := range modGhosts {
+		c := "G_" + g
+		if _, ok := x.so.comps[c]; !ok {
+			if srt, ok := x.eng.ghosts[g]; ok {
+				x.so.addComp(c, srt)
+				st.get(c)
+				n.m[c] = x.freshConst(c+"_hv", srt)
+			}
+		}
+	}
+	n.tainted = true
+	na := x.freshConst("na", "Int")
+	x.assume("", "(>= "+na+" "+st.na+")")
+	n.na = na
+	return n
+}
+
 // havocForWrites gives fresh symbols to the components in ws (or all).
 func (x *Exec) havocForWrites(st *State, ws *WriteSet, why string) *State {
 	n := st.clone()
 	if ws.Top {
 		for _, c := range x.so.sortedComps() {
+			if strings.HasPrefix(c, "L_") {
+				continue // non-escaping locals cannot be written by anybody else
+			}
 			n.m[c] = x.freshConst(c+"_hv", x.so.comps[c])
 		}
 		n.tainted = true
 	} else {
 		for _, c := range ws.sorted() {
+			if strings.HasPrefix(c, "L?") {
+				// local cell written in a loop: every instance (inlined copies included)
+				suf := strings.TrimPrefix(c, "L?")
+				for _, lc := range x.so.sortedComps() {
+					if strings.HasPrefix(lc, "L_") && strings.HasSuffix(lc, suf) {
+						if _, ok := st.m[lc]; ok {
+							n.m[lc] = x.freshConst(lc+"_hv", x.so.comps[lc])
+						}
+					}
+				}
+				continue
+			}
 			if _, ok := x.so.comps[c]; !ok {
 				if strings.HasPrefix(c, "G_") {
 					x.so.addComp(c, x.eng.ghosts[strings.TrimPrefix(c, "G_")])
